@@ -1337,12 +1337,12 @@ class BaseImage(metaclass=ImageMeta):
         cursor_up = CURSOR_UP % (lines - 1) if lines > 1 else ""
         cursor_down = CURSOR_DOWN % lines
         interrupted = False
-        writing_frame = False
+        # `True` until the first frame has been completely written: a subclass may have
+        # drawn (and left the cursor at the top of) the region beforehand.
+        writing_frame = True
 
         try:
-            frame = next(image_it._animator)  # First frame
-            writing_frame = True
-            print(frame, end="", flush=True)
+            print(next(image_it._animator), end="", flush=True)  # First frame
             writing_frame = False
 
             # Render next frame during current frame's duration
